@@ -1,1 +1,12 @@
-pub fn placeholder() {}
+//! Property checks for ajtribick/twofloat (property-based testing with an exact oracle).
+pub mod common;
+pub mod engine;
+pub mod gen;
+pub mod p_arith;
+pub mod selftest;
+
+use engine::Property;
+
+pub fn all_properties() -> Vec<Property> {
+    vec![p_arith::c02(), p_arith::c03(), p_arith::c04(), p_arith::c05()]
+}
